@@ -91,15 +91,17 @@ def small_range_rr(tier, rng):
 
 def small_rack(tier, rng):
     """RackAffinity, small scope: one topic, <=3 members, <=5 partitions, racks of members and leaders from {"", r1, r2}."""
-    for k in (1, 2, 3):
+    for k in ((1, 2, 3, 4) if tier == "thorough" else (1, 2, 3)):
         ids = IDS[:k]
         orders = listing_orders(ids, "thorough" if tier == "thorough" else "quick", rng)
         if tier == "quick":
             orders = orders[:2]
+        if k == 4:                          # beyond the scope of DESIGN 6.12: four members, two listing orders, <=4 partitions
+            orders = [ids, ids[::-1]]
         for order in orders:
             for mr in itertools.product(RACKS, repeat=k):
                 mrd = dict(zip(ids, mr))
-                for n in range(6):
+                for n in range(5 if k == 4 else 6):
                     allpr = list(itertools.product(RACKS, repeat=n))
                     if tier == "quick" and len(allpr) > 27:
                         allpr = rng.sample(allpr, 27 if n == 4 else 40)
@@ -123,7 +125,7 @@ def small_rack(tier, rng):
 
 def random_large(tier, rng):
     """Seeded larger groups: <=40 members, <=200 partitions, 1..4 topics, racks from {"", r1, r2, r3}."""
-    n = 60 if tier == "quick" else 900
+    n = 60 if tier == "quick" else 2400
     topics_pool = ["t", "u", "v", "w"]
     for i in range(n):
         bal = ("range", "roundrobin", "rack")[i % 3]
@@ -391,13 +393,44 @@ def run(ctx):
         "exhaustive_small_scope": tier == "thorough",
         "rule": ("thorough: every non-empty member set of {a,b,c,d} in every listing order x every subscription map over {t,u} x 0..5 partitions per "
                  "topic x {ordered, shuffled} for range and roundrobin; rack: 1..3 members in every listing order x racks {'',r1,r2}^members x "
-                 "racks^partitions for 0..5 partitions, 8 calls each; plus seeded two-topic rack cases and seeded large groups. "
+                 "racks^partitions for 0..5 partitions (4 members: two listing orders, 0..4 partitions), 8 calls each; plus seeded two-topic rack cases and seeded large groups. "
                  "quick: a seeded subset of the same space (see inputs_per_scope)"),
     }
     if stats.get("rangeLines") and stats.get("rangeKafka", 0) < stats.get("rangeLines", 0):
-        ctx.notes.append("RangeGroupBalancer follows the floor rule [i*n/k, (i+1)*n/k) on %d of %d lines and the rule of its doc comment "
-                         "(Kafka's range assignor, first n%%k members get the extra partition) on %d: the doc comment example "
-                         "'5 partitions, 2 consumers: C0 [0,1,2], C1 [3,4]' is not what the code returns ([0,1] / [2,3,4]); C14 only "
-                         "promises contiguous runs with loads differing by at most one, so this is not a violation" % (
-                             stats.get("rangeFloor", 0), stats["rangeLines"], stats.get("rangeKafka", 0)))
+        ex = [l for l in lines if l["bal"] == "range" and not l["panic"] and len(l["in"]["members"]) == 2
+              and all(m["topics"] == ["t"] for m in l["in"]["members"])
+              and [(q["topic"], q["id"]) for q in l["in"]["parts"]] == [("t", k) for k in range(5)]]
+        shown = ""
+        if ex:
+            shown = "; for the doc comment's example (5 partitions, 2 consumers: 'C0 [0,1,2], C1 [3,4]') the code returned %s" % json.dumps(
+                compact(ex[0])["output_of_AssignGroups"], separators=(",", ":"))
+        ctx.notes.append("not a violation of C14 (which promises contiguous runs with loads differing by at most one): RangeGroupBalancer's output "
+                         "equals the floor rule [i*n/k, (i+1)*n/k) on %d of %d judged lines and the rule of its doc comment (Kafka's range assignor, "
+                         "the first n%%k members get the extra partition) on %d%s" % (
+                             stats.get("rangeFloor", 0), stats["rangeLines"], stats.get("rangeKafka", 0), shown))
+    if stats.get("rrRank", 0) < stats.get("rrLines", 0) or stats.get("rangeFloor", 0) < stats.get("rangeLines", 0):
+        ctx.notes.append("not a verdict: %d of %d roundrobin lines start member i (by ascending id) at listed position i, %d of %d range lines "
+                         "follow the floor rule; C14 does not fix which member gets which run / start" % (
+                             stats.get("rrRank", 0), stats.get("rrLines", 0), stats.get("rangeFloor", 0), stats.get("rangeLines", 0)))
     return cov
+
+
+def replay(ctx, path):
+    """bin/check C14 quick --replay <dir>: runs the real AssignGroups again on <dir>/input.ndjson and lets TLC judge the lines."""
+    ip = os.path.join(path, "input.ndjson")
+    if not os.path.exists(ip):
+        raise Inconclusive("no input.ndjson in " + path)
+    op = os.path.join(ctx.work, "gb-replay-lines.ndjson")
+    p = ctx.run_vh(["groupbal", "-in", ip, "-out", op, "-reps", "64"], timeout=300)
+    if p.returncode != 0:
+        raise Inconclusive("vh groupbal failed: " + (p.stderr or p.stdout)[-2000:])
+    lines = read_ndjson(op)
+    state = {"lock": threading.Lock(), "nviol": 0, "stop": False, "tlc_runs": 0, "tlc_retries": 0, "tlc_wall": 0.0, "timeout": 300}
+    accepted, gen, dist, stats, viols, unjudged = judge_shard(ctx, 0, lines, state)
+    for clause, line, out in viols:
+        print("VIOLATION property=%s replay=%s" % (ctx.prop, path), flush=True)
+        print("  detail: %s is false: %s -> %s" % (clause, key_of(clause, line)[len(clause) + 1:][:600],
+                                                  ("panic: " + line["panic"]) if line["panic"] else json.dumps(line["out"], separators=(",", ":"))[:600]), flush=True)
+    if not viols:
+        print("replay: %d line(s) of the real AssignGroups accepted by every clause of C14" % accepted, flush=True)
+    return 1 if viols else 0
